@@ -407,6 +407,11 @@ def resolve_bad(root: Any, other: Any, op: dict) -> Bad:
                 if others:
                     stranger = others[op.get('sel', 0) % len(others)]
             arg = present[:op.get('npresent', 1)] + [stranger]
+            if op.get('released') and name == 'claim_interleaving_comments' and present:
+                # the list's own comments released first (a valid call, part of the history): they are claimable again, the stranger is not -
+                # a selection that is refused as a whole although part of it could be satisfied (round 8, seed C14-h)
+                arg = list(w.unclaim_interleaving_comments()) + [stranger]
+                b.key += ':released+stranger'
             if op.get('stranger_first'):
                 arg.reverse()
             b.nontrivial = len(arg) > 1
@@ -778,7 +783,7 @@ def _gen_bad(g: L.G, root: Any) -> Optional[dict]:
             m, p, cname, mi = cands[g.n(0, len(cands) - 1)]
             return {'f': 'bad', 'k': 'comments', 'cls': cname, 'mi': mi, 'prop': p.name,
                     'op': g.pick(['claim_interleaving_comments', 'unclaim_interleaving_comments']),
-                    'npresent': g.n(0, 2), 'stranger': g.pick(['fresh', 'other']), 'sel': g.n(0, 9), 'stranger_first': g.p(0.4)}
+                    'npresent': g.n(0, 2), 'stranger': g.pick(['fresh', 'other']), 'sel': g.n(0, 9), 'stranger_first': g.p(0.4), 'released': g.p(0.5)}
         names = sorted(n for n in idx if hasattr(idx[n][0], 'claim_leading_comment'))
         if not names:
             return None
